@@ -1,5 +1,5 @@
 """C01 - balance-sheet identity at every node; recorded rows = end-of-date state."""
-from .. import alpha, bfs, ref, tree as T
+from .. import alpha, bfs, ref, rt, tree as T
 
 MOD = "btmc.props.c01"
 OBSERVE = False  # prefixes are replayed with no reads: pending (stale) state accumulates
@@ -17,6 +17,12 @@ def post(t, op, pre_state):
     if t.spec.get("observe") == "leaves":
         # the first reads after the op are the accessors of the securities (dormant ones included),
         # only then the strategies': whoever is read first has to bring the whole tree up to date
+        for n in reversed(list(t.root.members)):
+            if isinstance(n, rt.bt().core.StrategyBase) and n is not t.root:
+                # a sub-strategy's recorded series are the very first thing read
+                n.values
+                n.prices
+                break
         for n in reversed(list(t.root.members)):
             n.weight
             n.value
@@ -159,6 +165,9 @@ def configs(tier, seed):
     for vi, v in enumerate(vs[:1] if quick else variants[:2]):
         spec = dict(v, shape="T1", alpha="exact", capital=64.0, ndates=6, observe="leaves", preops=[["transact", [], "a", 3.0], ["next"], ["close", [], "a"], ["next"], ["next"]])
         out.append(("T1/dormant/%s" % _vname(v), spec, alpha.base_ops("T1") + [["next_raw"]], 2 if quick else 3))
+    # the same order of reads (sub-strategies' histories and securities first) on a nested tree
+    spec = dict(vs[0], shape="T2", alpha="exact", capital=64.0, ndates=4, observe="leaves", prefund=[[[], "s1", 24.0], [[], "s2", 8.0]])
+    out.append(("T2/leaves/%s" % _vname(vs[0]), spec, alpha.base_ops("T2") + [["next_raw"]], 2 if quick else 3))
     # deliveries: fills at a custom price of exactly zero with bid/offer accounting on - no cash moves at all
     for integer in ((False,) if quick else (False, True)):
         spec = {"integer": integer, "fee": None, "spread": 0.5, "mult": {"a": 2}, "shape": "T1", "alpha": "exact", "capital": 64.0, "ndates": 4}
